@@ -515,7 +515,7 @@ def codegen_sqrt(x):
         cp = f'({str(a.e)}**0.5)'
     else:
         normS = (a * a - bI * bI).e
-        cp = f'(0.5 * ({str(a.e)} + {str(normS)}**0.5)) ** 0.5'
+        cp = f'(0.5 * ({str(a.e)} + ({str(normS)})**0.5)) ** 0.5'
     c = alg.scalar(name='c')
     c2_inv = alg.scalar(name='c2_inv')
     dI = bI * c2_inv
